@@ -18,7 +18,39 @@ import (
 // initiator and responder end up with identical, mutually usable SAs.
 // ---------------------------------------------------------------------------
 
+type c07Kept struct {
+	su   Suite
+	obj  *security.IKESAKey
+	want ref.IKEKeys
+	who  string
+	step int
+}
+
+// c07Keep remembers a derived SA so that it is inspected again after later
+// derivations (the keys of an SA must not change when another SA is derived).
+func c07Keep(w *World, su Suite, obj *security.IKESAKey, want ref.IKEKeys, who string) {
+	kept, _ := w.ext["c07_kept"].([]c07Kept)
+	w.ext["c07_kept"] = append(kept, c07Kept{su, obj, want, who, w.step})
+}
+
+func c07Final(w *World) {
+	kept, _ := w.ext["c07_kept"].([]c07Kept)
+	for _, k := range kept {
+		if k.step == len(kept)-1 && len(kept) == 1 {
+			continue
+		}
+		probe := NewRng(uint64(k.step) ^ 0x77).Bytes(24)
+		before := len(w.viol)
+		c07CheckObjects(w, k.su, k.obj, k.want, k.who+" (re-inspected after later derivations)", probe, uint64(k.step))
+		for i := before; i < len(w.viol); i++ {
+			w.viol[i].Oracle = "sa_changed_after_later_derivation"
+		}
+		w.stats.inc("c07_reinspections")
+	}
+}
+
 func init() {
+	finals["C07"] = c07Final
 	ops["handshake"] = opHandshake
 	ops["kdf"] = opKDF
 	props["C07"] = &PropDef{
@@ -269,6 +301,8 @@ func opHandshake(w *World, s *Step) (string, string) {
 	okR := c07CheckObjects(w, su, or, want, "responder", probe, s.SpiR)
 	if okI && okR {
 		c07Mutual(w, su, oi, or, probe, s.SpiI^s.SpiR)
+		c07Keep(w, su, oi, want, "initiator")
+		c07Keep(w, su, or, want, "responder")
 	}
 	w.nontriv = true
 	w.stats.inc("two_party_handshakes")
@@ -299,6 +333,7 @@ func opKDF(w *World, s *Step) (string, string) {
 	okB := c07CheckObjects(w, su, b, want, "party B", probe, s.SpiR)
 	if okA && okB {
 		c07Mutual(w, su, a, b, probe, s.SpiI^s.SpiR)
+		c07Keep(w, su, a, want, "party A")
 	}
 	w.nontriv = true
 	w.stats.inc("synthetic_derivations")
